@@ -865,7 +865,7 @@ func (g *gen) input() Input {
 		mk := func() []V {
 			es := []V{}
 			seen := map[string]bool{}
-			for i := g.r.Range(1, 4); i > 0; i-- {
+			for i := g.r.Range(2, 5); i > 0; i-- {
 				c := lib.Pick(g.r, []string{"name", "code", "age", "Note", "Name", "data"})
 				lc := strings.ToLower(c)
 				if !seen[lc] {
@@ -873,6 +873,8 @@ func (g *gen) input() Input {
 					v := g.scalar()
 					if g.r.Chance(1, 6) {
 						v = V{T: "VExpr", S: "lower(?)", L: []V{g.str()}}
+					} else if g.r.Chance(1, 4) {
+						v = g.null()
 					}
 					es = append(es, named(c, v))
 				}
